@@ -340,6 +340,10 @@ class Prelude:
         A(f"{n}.count_app", z3.ForAll([s, t, x], cnt(app(s, t), x) == cnt(s, x) + cnt(t, x), patterns=[cnt(app(s, t), x)]))
         A(f"{n}.count_nonneg", z3.ForAll([s, x], cnt(s, x) >= 0, patterns=[cnt(s, x)]))
         # only for sequences whose multiplicities are being discussed (some count term on s exists)
+        # opt-in ("count_witness"): an element that is counted occurs at some position
+        cpos = self.func(f"cpos_{n}", S, E, I)
+        A(f"{n}.count_witness", z3.ForAll([s, x], z3.Implies(cnt(s, x) >= 1, z3.And(0 <= cpos(s, x), cpos(s, x) < ln(s), idx(s, cpos(s, x)) == x)),
+                                          patterns=[cnt(s, x)]))
         A(f"{n}.count_idx", z3.ForAll([s, i, y], z3.Implies(z3.And(0 <= i, i < ln(s)), cnt(s, idx(s, i)) >= 1),
                                       patterns=[z3.MultiPattern(idx(s, i), cnt(s, y))]))
 
